@@ -64,7 +64,11 @@ class Expression(Node):
         if a == 0 and O == '/':
             # NOTE(saschpe): The ugliest but valid CSS since sliced bread: 'font: 0/1 a;'
             return ''.join([str(A), str(O), str(B), ' '])
-        out = self.operate(a, b, O)
+        try:
+            out = self.operate(a, b, O)
+        except ZeroDivisionError:
+            raise SyntaxError('Division by zero in expression `%s %s %s`' %
+                              (A, O, B))
         if isinstance(out, bool):
             return out
         return self.with_units(out, ua, ub)
